@@ -22,6 +22,10 @@ def gen_statement(rng: random.Random, mod: str, hostile: bool) -> tuple[str, dic
         form = rng.choice(["def {n}(): ...", "class {n}: ...", "{n} = 1", "{n}: int = 2"])
         return form.format(n=name), {"t": "def", "name": name}
     targets = MODULES + (MISSING_MODULES if hostile else [])
+    if hostile and rng.random() < 0.18:
+        # a dotted path that goes *through a name* bound in a package (possibly an alias of a module, possibly of the very
+        # module that contains this import)
+        targets = [f"{rng.choice(['p', 'q', 'p.s'])}.{rng.choice(NAMES)}"]
     target = rng.choice(targets)
     if r < 0.55:
         # from-import, absolute or relative
@@ -157,6 +161,19 @@ def gen_ring(rng: random.Random) -> tuple[dict[str, str], dict[str, list[dict]]]
             ds.append({"t": "all", "names": [name]})
         files[mod_file(mod)] = "\n".join(lines) + "\n"
         descs[mod] = ds
+    # sometimes reach the next module through an alias of it bound in its package: `from p import a as X` + `from p.X import n`
+    if rng.random() < 0.35:
+        mod = rng.choice(ring)
+        nxt = rng.choice([m for m in MODULES if "." in m])
+        pkgname, leaf = nxt.rsplit(".", 1)
+        alias = rng.choice(NAMES)
+        files[mod_file(pkgname)] = files.get(mod_file(pkgname), "") + f"from {pkgname} import {leaf} as {alias}\n"
+        descs.setdefault(pkgname, []).append({"t": "from", "module": pkgname, "name": leaf, "as": alias})
+        files[mod_file(mod)] += f"from {pkgname}.{alias} import {name}\n"
+        descs[mod].append({"t": "from", "module": f"{pkgname}.{alias}", "name": name})
+        if rng.random() < 0.5:
+            files[mod_file(nxt)] = files.get(mod_file(nxt), "") + f"from {pkgname}.{alias} import {name}\n"
+            descs.setdefault(nxt, []).append({"t": "from", "module": f"{pkgname}.{alias}", "name": name})
     # a little noise elsewhere
     for mod in MODULES:
         if mod not in ring and rng.random() < 0.3:
